@@ -7,7 +7,7 @@
 From Coq Require Import List NArith Bool.
 From Verif Require Import lib.Quote model.ExSyntax model.ExLexer model.ExParser model.ExPrinter model.ExScanner
   model.ExRefactor model.ExTemplate proofs.ExPrintProofs proofs.ExRoundtrip proofs.ExScannerProofs
-  proofs.ExRefactorProofs proofs.ExRender proofs.ExParserTotal proofs.ExC11.
+  proofs.ExRefactorProofs proofs.ExRender proofs.ExParserTotal proofs.ExGlue proofs.ExTreeWf proofs.ExC11.
 Import ListNotations.
 Open Scope N_scope.
 
@@ -117,3 +117,43 @@ Theorem c11_parse_total : forall ts,
   (exists t, parse_tokens ts = POk t) \/ parse_tokens ts = PSyntax \/ parse_tokens ts = POutside.
 Proof. exact parse_total_stmt. Qed.
 Print Assumptions c11_parse_total.
+
+(* Renaming tied to the output: for every accepted source with tree t, the tokens Expression.String() writes for the
+   RENAMED tree parse back to exactly norm (rename t) — same shape, the free matching references carrying the new name
+   (lower-cased), the bound ones and everything else as before; and when the printed text of the renamed tree is
+   glue-free (in particular the new name must be a NAME lexeme and no keyword) the TEXT refactor.Template writes for
+   the expression lexes and parses to that tree.  Not covered: a dotted target such as the production call's
+   to = "webhook.json" (13_x.go:192), whose printed form `webhook.json` deliberately re-parses as a dot lookup on
+   `webhook` — glue_free is false for it (not a NAME lexeme); that case is tied by the correspondence run only. *)
+Theorem c11_rename_reparse : forall (lower : N -> N) (printable : N -> bool) (is_from : ExSyntax.text -> bool) (to : ExSyntax.text) inp ts t,
+  printable 10 = false -> valid_codepoints inp ->
+  lex inp = LOk ts -> parse_tokens ts = POk t ->
+  parse_tokens (ptoks lower printable (rename is_from to t)) = POk (norm lower (rename is_from to t))
+  /\ (glue_free lower printable (rename is_from to t) = true ->
+      exists ts', lex (print lower printable (rename is_from to t)) = LOk ts'
+                  /\ parse_tokens ts' = POk (norm lower (rename is_from to t))).
+Proof. exact rename_reparse_stmt. Qed.
+Print Assumptions c11_rename_reparse.
+
+(* First sentence, on text, with the side condition stated on the SOURCE tree (this sizes the "partial" of
+   c11_roundtrip_partial): for every source text (valid code points) that the models accept, with tree t, if
+     (i)  names_ok lower t: every name the printer writes is a NAME lexeme and no keyword — for context references
+          that is their LOWER-CASED form, for parameters and non-numeric lookups the text as written (those come out
+          of the lexer as NAME tokens), and
+     (ii) texts_ok t: no text literal's value ends in a backslash,
+   then the printed text lexes, parses to exactly norm t, and prints to the same text again.  Everything else the
+   printer writes — operator and punctuation symbols, numbers after re-rendering, true/false/null, the separating
+   space between numeric lookups (205f8a3) — can never glue: that part is unconditional for the trees the parser
+   builds (parsed_shape: containers are atoms, literals carry lexemes).  (i) fails for the Cherokee witness, (ii) for
+   the backslash witness of c11_roundtrip_refuted (Example source_conditions_witness), i.e. exactly the two known
+   findings; (ii) is slightly stronger than necessary (a value ending in a backslash is harmless when no quote
+   follows it in the printed text). *)
+Theorem c11_roundtrip_source : forall (lower : N -> N) (printable : N -> bool) inp ts t,
+  printable 10 = false -> (forall c, lower (lower c) = lower c) -> valid_codepoints inp ->
+  lex inp = LOk ts -> parse_tokens ts = POk t ->
+  names_ok lower t = true -> texts_ok t = true ->
+  exists ts', lex (print lower printable t) = LOk ts'
+              /\ parse_tokens ts' = POk (norm lower t)
+              /\ print lower printable (norm lower t) = print lower printable t.
+Proof. exact roundtrip_source_stmt. Qed.
+Print Assumptions c11_roundtrip_source.
